@@ -424,7 +424,7 @@ func c064(c *an.Ctx, p *an.Prog, h Root, fn *ssa.Function) {
 				continue
 			}
 			fv := an.FieldVar(fa.X.Type(), fa.Field)
-			if fv == nil || fv.Name() != "List" {
+			if fv == nil || an.CanonField(fa.X.Type(), fa.Field) != "List" {
 				continue
 			}
 			okSrc := false
